@@ -32,13 +32,17 @@ QBad(kind, o, x) ==
       [] kind = "dot" ->
            IF o.snodes # x.snodes THEN "substance-nodes" ELSE IF o.rnodes # x.rnodes THEN "reaction-nodes"
            ELSE IF o.edges # x.edges THEN "edges" ELSE ""
+      [] kind = "order" -> IF o.names # x.names THEN "names" ELSE IF o.arr # x.arr THEN "array" ELSE ""
       [] kind = "subset" -> IF o.yes # x.yes \/ o.no # x.no THEN "subset" ELSE ""
       [] kind = "conv" ->
            IF o.arr # x.arr THEN "array" ELSE IF o.dict # x.dict THEN "dict"
-           ELSE IF o.idx # x.idx THEN "index" ELSE IF o.vkeys # x.vkeys THEN "varied-keys"
+           ELSE IF o.idx # x.idx \/ o.idxint # x.idxint THEN "index"
+           ELSE IF o.names # x.names THEN "names" ELSE IF o.arrlist # x.arrlist THEN "array-from-list"
+           ELSE IF o.arrextra # x.arrextra THEN "array-extra-key" ELSE IF o.refused # x.refused THEN "refusals"
+           ELSE IF o.vkeys # x.vkeys THEN "varied-keys"
            ELSE IF o.varied # x.varied THEN "varied" ELSE ""
       [] kind = "bounds" -> IF o.ub # x.ub THEN "bounds" ELSE ""
-      [] kind = "yields" -> IF o.k # [i \in DOMAIN x.k |-> <<x.k[i], 1>>] THEN "yields" ELSE ""
+      [] kind = "yields" -> IF o.k # x.k THEN "yields" ELSE ""
       [] kind = "add" -> IF o.src # x.src THEN "sum-reactions" ELSE IF o.ss # x.ss THEN "sum-substances" ELSE ""
       [] kind = "eq" -> IF o.eq # x.eq THEN "equality" ELSE ""
       [] kind = "concatn" -> IF o.sum # x.sum THEN "concat-sum" ELSE IF o.dup # x.dup THEN "concat-duplicates" ELSE ""
@@ -46,13 +50,14 @@ QBad(kind, o, x) ==
 Clean(o) == ~o.raised /\ o.bad = ""
 
 Step(e) ==
-    CASE e.op = "Make" -> /\ Make(e.rx, e.mode, e.given, e.comp)
+    CASE e.op = "Make" -> /\ Make(e.rx, e.mode, e.given, e.comp, e.opt)
                           /\ e.obs.bad = ""
                           /\ e.obs.raised = out'.raised
                           /\ (~e.obs.raised => (e.obs.ss = out'.ss /\ e.obs.nr = out'.nr))
       [] e.op = "DoSplit"  -> Clean(e.obs) /\ DoSplit(e.i, e.obs.parts)
       [] e.op = "DoSubset" -> Clean(e.obs) /\ DoSubset(e.i, e.p, e.obs.yes, e.obs.no)
       [] e.op = "DoAdd"    -> Clean(e.obs) /\ DoAdd(e.i, e.j, e.how, e.obs.src, e.obs.ss)
+      [] e.op = "DoSort"   -> Clean(e.obs) /\ DoSort(e.i, e.how) /\ e.obs.ss = out'.ss
       [] e.op = "Query"    -> Clean(e.obs) /\ Query(e.i, e.kind, e.arg) /\ QBad(e.kind, e.obs, out'.exp) = ""
       [] e.op = "QueryCat" -> Clean(e.obs) /\ QueryCat(e.js) /\ QBad("concatn", e.obs, out'.exp) = ""
       [] e.op = "Query2"   -> Clean(e.obs) /\ Query2(e.i, e.j, e.kind) /\ QBad(e.kind, e.obs, out'.exp) = ""
@@ -78,11 +83,11 @@ Clause ==
     IF pos > Len(Traces[tid]) THEN "model:no-end-event"
     ELSE LET e == Ev IN
       IF e.op = "Make" THEN
-          (IF ~((\A i \in DOMAIN e.rx : IsReaction(e.rx[i])) /\ (e.mode # "deduce" => IsInj(e.given))) THEN "model:Make"
+          (IF ~MakeInModel(e.rx, e.mode, e.given, e.opt) THEN "model:Make"
            ELSE IF e.obs.bad # "" THEN "bad:" \o e.obs.bad
-           ELSE IF e.obs.raised # MakeRefused(e.rx, e.mode, e.given)
+           ELSE IF e.obs.raised # MakeRefused(e.rx, e.mode, e.given, e.opt)
                 THEN (IF e.obs.raised THEN "make-raised:" \o e.obs.exc ELSE "make-not-refused")
-           ELSE IF e.obs.ss # MakeSubst(e.rx, e.mode, e.given) THEN "substance-order"
+           ELSE IF e.obs.ss # MakeSubst(e.rx, e.mode, e.given, e.opt) THEN "substance-order"
            ELSE "reaction-count")
       ELSE IF e.op \in {"DoSplit", "DoSubset"} THEN
           (IF ~IsSys(e.i) THEN "model:" \o e.op
@@ -97,10 +102,15 @@ Clause ==
                     \/ ~IsInj(e.obs.yes.rx) \/ ~IsInj(e.obs.no.rx)
                  THEN "subset-reactions" ELSE "subset-substances"))
       ELSE IF e.op = "DoAdd" THEN
-          (IF ~IsSys(e.i) \/ ~IsSys(e.j) \/ e.how \notin {"add", "iadd"} \/ (e.how = "iadd" /\ e.i = e.j) THEN "model:DoAdd"
+          (IF ~IsSys(e.i) \/ ~IsSys(e.j) \/ e.how \notin {"add", "iadd", "add-list", "iadd-list"}
+              \/ (e.how \in {"iadd", "iadd-list"} /\ e.i = e.j) THEN "model:DoAdd"
+           ELSE IF e.how \in {"add-list", "iadd-list"} /\ ~(SysKeys(ws[e.j]) \subseteq Subst(ws[e.i])) THEN "outside:list-add"
            ELSE IF ObsFault(e.obs) # "" THEN ObsFault(e.obs)
            ELSE IF ~(IsInj(e.obs.src) /\ ToSet(e.obs.src) = ({1} \X RIdx(ws[e.i])) \cup ({2} \X RIdx(ws[e.j])))
                 THEN "sum-reactions" ELSE "sum-substances")
+      ELSE IF e.op = "DoSort" THEN
+          (IF ~IsSys(e.i) \/ e.how \notin {"name", "rev"} THEN "model:DoSort"
+           ELSE IF ObsFault(e.obs) # "" THEN ObsFault(e.obs) ELSE "sorted-order")
       ELSE IF e.op = "Query" THEN
           (IF ~IsSys(e.i) THEN "model:Query"
            ELSE IF ~QueryDefined(ws[e.i], e.kind, e.arg) THEN "outside:" \o e.kind
